@@ -1033,6 +1033,206 @@ Proof.
 Qed.
 
 (* ================================================================== *)
+(* 3b. linearity of the contraction: primitive-level laws lifted to the blocks *)
+(* ================================================================== *)
+Notation fsum := (FNum.fsum K).
+
+Lemma fsum_map_lin {A} (l : list A) (g g1 g2 g3 : A -> F) c2 c3 :
+  (forall x, In x l -> g x = g1 x + c2 * g2 x + c3 * g3 x) ->
+  fsum (map g l) = fsum (map g1 l) + c2 * fsum (map g2 l) + c3 * fsum (map g3 l).
+Proof.
+  induction l as [|x l IH]; intros H; cbn [map FNum.fsum fold_right]; [ring|].
+  rewrite (H x (or_introl eq_refl)). unfold FNum.fsum in IH. rewrite IH by (intros; apply H; now right).
+  ring.
+Qed.
+
+Lemma combine_map_same {A B C} (f : A -> B) (g : A -> C) l :
+  combine (map f l) (map g l) = map (fun x => (f x, g x)) l.
+Proof. induction l as [|x l IH]; cbn; [reflexivity|]. now rewrite IH. Qed.
+
+(* the entry of a block whose primitive array is tabulated over the exponents of the two shells *)
+Definition esum (sa sb : shell F) (H : F -> F -> F) (na nb : list F) (ma mb : nat) : F :=
+  entry_sum K sa sb (map (fun beta => map (fun alpha => H alpha beta) (s_exps sa)) (s_exps sb)) na nb ma mb.
+
+Lemma esum_unfold sa sb H na nb ma mb :
+  esum sa sb H na nb ma mb
+  = fsum (map (fun p : F * (F * list F) =>
+       fsum (map (fun q : F * (F * list F) => H (fst q) (fst p) * fst (snd q) * nth ma (snd (snd q)) 0)
+                 (combine (s_exps sa) (combine na (s_coeffs sa))))
+       * fst (snd p) * nth mb (snd (snd p)) 0)
+     (combine (s_exps sb) (combine nb (s_coeffs sb)))).
+Proof.
+  unfold esum, entry_sum. rewrite combine_map_l, map_map. f_equal. apply map_ext. intros [b [n crow]].
+  cbn [fst snd]. rewrite combine_map_l, map_map. reflexivity.
+Qed.
+
+Lemma esum_lin sa sb (H H1 H2 H3 : F -> F -> F) c2 c3 na nb ma mb :
+  (forall a b, In a (s_exps sa) -> In b (s_exps sb) -> H a b = H1 a b + c2 * H2 a b + c3 * H3 a b) ->
+  esum sa sb H na nb ma mb
+  = esum sa sb H1 na nb ma mb + c2 * esum sa sb H2 na nb ma mb + c3 * esum sa sb H3 na nb ma mb.
+Proof.
+  intros Hl. rewrite !esum_unfold.
+  apply (fsum_map_lin _ _
+    (fun p : F * (F * list F) => fsum (map (fun q : F * (F * list F) =>
+        H1 (fst q) (fst p) * fst (snd q) * nth ma (snd (snd q)) 0) (combine (s_exps sa) (combine na (s_coeffs sa))))
+      * fst (snd p) * nth mb (snd (snd p)) 0)
+    (fun p : F * (F * list F) => fsum (map (fun q : F * (F * list F) =>
+        H2 (fst q) (fst p) * fst (snd q) * nth ma (snd (snd q)) 0) (combine (s_exps sa) (combine na (s_coeffs sa))))
+      * fst (snd p) * nth mb (snd (snd p)) 0)
+    (fun p : F * (F * list F) => fsum (map (fun q : F * (F * list F) =>
+        H3 (fst q) (fst p) * fst (snd q) * nth ma (snd (snd q)) 0) (combine (s_exps sa) (combine na (s_coeffs sa))))
+      * fst (snd p) * nth mb (snd (snd p)) 0)).
+  intros [b [n crow]] Hin. cbn [fst snd]. apply in_combine_l in Hin.
+  rewrite (fsum_map_lin _ _
+    (fun q : F * (F * list F) => H1 (fst q) b * fst (snd q) * nth ma (snd (snd q)) 0)
+    (fun q : F * (F * list F) => H2 (fst q) b * fst (snd q) * nth ma (snd (snd q)) 0)
+    (fun q : F * (F * list F) => H3 (fst q) b * fst (snd q) * nth ma (snd (snd q)) 0) c2 c3).
+  - ring.
+  - intros [a [n' crow']] Hina. cbn [fst snd]. apply in_combine_l in Hina.
+    rewrite (Hl a b Hina Hin). ring.
+Qed.
+
+Lemma esum_scale sa sb (H H1 : F -> F -> F) c na nb ma mb :
+  (forall a b, In a (s_exps sa) -> In b (s_exps sb) -> H a b = c * H1 a b) ->
+  esum sa sb H na nb ma mb = c * esum sa sb H1 na nb ma mb.
+Proof.
+  intros Hl.
+  rewrite (esum_lin sa sb H (fun _ _ => 0) H1 (fun _ _ => 0) c 0 na nb ma mb).
+  - assert (Z : esum sa sb (fun _ _ => 0) na nb ma mb = 0).
+    { rewrite (esum_lin sa sb (fun _ _ => 0) (fun _ _ => 0) (fun _ _ => 0) (fun _ _ => 0) (- (1)) 0 na nb ma mb)
+        by (intros; cbv beta; ring). ring. }
+    rewrite Z. ring.
+  - intros a b Ha Hb. cbv beta. rewrite (Hl a b Ha Hb). ring.
+Qed.
+
+(* ---- angular momentum about a displaced origin, block level ---- *)
+(* one Cartesian component of the angular-momentum block, exactly as angmom_block_re builds it *)
+Definition angmom_comp_block (sa sb : shell F) (c : nat) : list (list (list (list F))) :=
+  block_of K sa sb (fun ca cb =>
+    map (fun '(drow, mrow) => map (fun '(d, m) => nth c (angmom_prim K d m ca cb) 0) (combine drow mrow))
+        (combine (dtabs K 1 sa sb) (tabs K 0 0 0 [(1, 0, 0)%nat] sa sb))).
+Lemma angmom_block_re_comps sa sb :
+  angmom_block_re K sa sb
+  = zip4 (fun xy z => xy ++ [z])
+         (zip4 (fun x y => [x; y]) (angmom_comp_block sa sb 0) (angmom_comp_block sa sb 1))
+         (angmom_comp_block sa sb 2).
+Proof. reflexivity. Qed.
+(* one component of the momentum block (what momentum_block_re zips together) *)
+Definition momentum_comp_block (sa sb : shell F) (c : nat) : list (list (list (list F))) :=
+  nth c (diffop_block K [(1, 0, 0); (0, 1, 0); (0, 0, 1)]%nat sa sb) [].
+Lemma momentum_block_re_comps sa sb :
+  momentum_block_re K sa sb
+  = zip4 (fun xy z => xy ++ [z])
+         (zip4 (fun x y => [x; y]) (momentum_comp_block sa sb 0) (momentum_comp_block sa sb 1))
+         (momentum_comp_block sa sb 2).
+Proof. reflexivity. Qed.
+
+Definition unit_order (c : nat) : comp :=
+  match c with O => (1, 0, 0)%nat | S O => (0, 1, 0)%nat | _ => (0, 0, 1)%nat end.
+Definition tget (t : F * F * F) (c : nat) : F :=
+  match c with O => fst (fst t) | S O => snd (fst t) | _ => snd t end.
+
+Lemma comp_le_l (s : shell F) i :
+  (forall c, In c (comps_of s) -> fst (fst c) <= s_l s /\ snd (fst c) <= s_l s /\ snd c <= s_l s)%nat ->
+  (i < length (comps_of s))%nat ->
+  let c := nth i (comps_of s) (0, 0, 0)%nat in
+  (fst (fst c) <= s_l s /\ snd (fst c) <= s_l s /\ snd c <= s_l s)%nat.
+Proof. intros H Hi. apply H. now apply nth_In. Qed.
+
+(* every component of the shell has its three powers within l (true for the default components) *)
+Definition comps_within (s : shell F) : Prop :=
+  forall c, In c (comps_of s) -> (fst (fst c) <= s_l s /\ snd (fst c) <= s_l s /\ snd c <= s_l s)%nat.
+
+Theorem angmom_block_shift sa sb tx ty tz c ma ia mb ib :
+  (forall x, fapx K x = x) -> 1 + 1 <> 0 -> exps_ok sa sb -> comps_within sa -> comps_within sb ->
+  (c < 3)%nat -> (ma < nseg sa)%nat -> (mb < nseg sb)%nat ->
+  (ia < length (comps_of sa))%nat -> (ib < length (comps_of sb))%nat ->
+  let t := (tx, ty, tz) in
+  let p k := get4 ma ia mb ib (momentum_comp_block sa sb k) in
+  get4 ma ia mb ib (angmom_comp_block (shift_shell tx ty tz sa) (shift_shell tx ty tz sb) c)
+  = get4 ma ia mb ib (angmom_comp_block sa sb c)
+    + tget t ((c + 1) mod 3) * p ((c + 2) mod 3) + (- tget t ((c + 2) mod 3)) * p ((c + 1) mod 3).
+Proof.
+  intros Hapx H2 Hexp Hca Hcb Hc Hma Hmb Hia Hib. cbv zeta.
+  pose proof (comp_le_l sa ia Hca Hia) as Hla. pose proof (comp_le_l sb ib Hcb Hib) as Hlb.
+  cbv zeta in Hla, Hlb.
+  set (ca := nth ia (comps_of sa) (0, 0, 0)%nat) in *.
+  set (cb := nth ib (comps_of sb) (0, 0, 0)%nat) in *.
+  unfold get4, angmom_comp_block, momentum_comp_block, diffop_block. cbv zeta.
+  change (omax [(1, 0, 0)%nat; (0, 1, 0)%nat; (0, 0, 1)%nat]) with 1%nat.
+  rewrite dtabs_shift by exact Hexp.
+  (* the three blocks as tabulated entry sums *)
+  set (Dt := fun alpha beta =>
+        (dtable K (s_x sa) (s_x sb) alpha beta (s_l sa) (s_l sb) 1,
+         dtable K (s_y sa) (s_y sb) alpha beta (s_l sa) (s_l sb) 1,
+         dtable K (s_z sa) (s_z sb) alpha beta (s_l sa) (s_l sb) 1)).
+  set (Mt := fun (ux uy uz : F) alpha beta =>
+        (table K (s_x sa + ux) (s_x sb + ux) 0 alpha beta (s_l sa) (s_l sb) 1,
+         table K (s_y sa + uy) (s_y sb + uy) 0 alpha beta (s_l sa) (s_l sb) 1,
+         table K (s_z sa + uz) (s_z sb + uz) 0 alpha beta (s_l sa) (s_l sb) 1)).
+  set (M0 := fun alpha beta =>
+        (table K (s_x sa) (s_x sb) 0 alpha beta (s_l sa) (s_l sb) 1,
+         table K (s_y sa) (s_y sb) 0 alpha beta (s_l sa) (s_l sb) 1,
+         table K (s_z sa) (s_z sb) 0 alpha beta (s_l sa) (s_l sb) 1)).
+  assert (Ed : dtabs K 1 sa sb = map (fun beta => map (fun alpha => Dt alpha beta) (s_exps sa)) (s_exps sb))
+    by reflexivity.
+  assert (Em : tabs K 0 0 0 [(1, 0, 0)%nat] (shift_shell tx ty tz sa) (shift_shell tx ty tz sb)
+               = map (fun beta => map (fun alpha => Mt tx ty tz alpha beta) (s_exps sa)) (s_exps sb))
+    by reflexivity.
+  assert (Em0 : tabs K 0 0 0 [(1, 0, 0)%nat] sa sb
+               = map (fun beta => map (fun alpha => M0 alpha beta) (s_exps sa)) (s_exps sb))
+    by reflexivity.
+  assert (Epf : forall (Mx : F -> F -> table3 (F:=F)) ca' cb',
+    map (fun '(drow, mrow) => map (fun '(d, m) => nth c (angmom_prim K d m ca' cb') 0) (combine drow mrow))
+        (combine (map (fun beta => map (fun alpha => Dt alpha beta) (s_exps sa)) (s_exps sb))
+                 (map (fun beta => map (fun alpha => Mx alpha beta) (s_exps sa)) (s_exps sb)))
+    = map (fun beta => map (fun alpha => nth c (angmom_prim K (Dt alpha beta) (Mx alpha beta) ca' cb') 0)
+                           (s_exps sa)) (s_exps sb)).
+  { intros Mx ca' cb'. rewrite combine_map_same, map_map. apply map_ext; intros b.
+    rewrite combine_map_same, map_map. reflexivity. }
+  assert (Epp : forall o ca' cb',
+    map (map (fun t0 => prim3 K t0 o ca' cb'))
+        (map (fun beta => map (fun alpha => Dt alpha beta) (s_exps sa)) (s_exps sb))
+    = map (fun beta => map (fun alpha => prim3 K (Dt alpha beta) o ca' cb') (s_exps sa)) (s_exps sb)).
+  { intros o ca' cb'. rewrite map_map. apply map_ext; intros b. rewrite map_map. reflexivity. }
+  rewrite (block_of_entry K (shift_shell tx ty tz sa) (shift_shell tx ty tz sb)) by assumption.
+  rewrite (block_of_entry K sa sb) by assumption.
+  change (comps_of (shift_shell tx ty tz sa)) with (comps_of sa).
+  change (comps_of (shift_shell tx ty tz sb)) with (comps_of sb).
+  change (norms K (shift_shell tx ty tz sa)) with (norms K sa).
+  change (norms K (shift_shell tx ty tz sb)) with (norms K sb).
+  change (entry_sum K (shift_shell tx ty tz sa) (shift_shell tx ty tz sb)) with (entry_sum K sa sb).
+  fold ca cb. rewrite Ed, Em, Em0, !Epf.
+  (* the momentum entries *)
+  assert (Ep : forall k, (k < 3)%nat ->
+    nth ib (nth mb (nth ia (nth ma (nth k
+      (map (fun o => block_of K sa sb (fun ca0 cb0 => map (map (fun t0 => prim3 K t0 o ca0 cb0))
+              (map (fun beta => map (fun alpha => Dt alpha beta) (s_exps sa)) (s_exps sb))))
+           [(1, 0, 0)%nat; (0, 1, 0)%nat; (0, 0, 1)%nat]) []) []) []) []) 0
+    = esum sa sb (fun alpha beta => prim3 K (Dt alpha beta) (unit_order k) ca cb)
+           (nth ia (norms K sa) []) (nth ib (norms K sb) []) ma mb).
+  { intros k Hk. destruct k as [|[|[|k]]]; try lia; cbn [map nth];
+      rewrite (block_of_entry K sa sb) by assumption; fold ca cb; rewrite Epp; reflexivity. }
+  rewrite !Ep by (apply Nat.mod_upper_bound; lia).
+  fold (esum sa sb (fun alpha beta => nth c (angmom_prim K (Dt alpha beta) (Mt tx ty tz alpha beta) ca cb) 0)
+             (nth ia (norms K sa) []) (nth ib (norms K sb) []) ma mb).
+  fold (esum sa sb (fun alpha beta => nth c (angmom_prim K (Dt alpha beta) (M0 alpha beta) ca cb) 0)
+             (nth ia (norms K sa) []) (nth ib (norms K sb) []) ma mb).
+  apply esum_lin. intros a b Ha Hb.
+  pose proof (angmom_prim_shift (s_x sa) (s_y sa) (s_z sa) (s_x sb) (s_y sb) (s_z sb) a b tx ty tz
+                (s_l sa) (s_l sb) ca cb Hapx (Hexp a b Ha Hb) H2 Hla Hlb) as E.
+  cbv zeta in E. unfold Dt, Mt, M0. rewrite E. clear E.
+  clearbody ca cb. destruct ca as [[ax ay] az], cb as [[bx by_] bz].
+  destruct c as [|[|[|c]]]; try lia.
+  - change ((0 + 1) mod 3)%nat with 1%nat. change ((0 + 2) mod 3)%nat with 2%nat.
+    unfold angmom_prim, cross3, prim3. cbn [map combine nth tget unit_order fst snd]. ring.
+  - change ((1 + 1) mod 3)%nat with 2%nat. change ((1 + 2) mod 3)%nat with 0%nat.
+    unfold angmom_prim, cross3, prim3. cbn [map combine nth tget unit_order fst snd]. ring.
+  - change ((2 + 1) mod 3)%nat with 0%nat. change ((2 + 2) mod 3)%nat with 1%nat.
+    unfold angmom_prim, cross3, prim3. cbn [map combine nth tget unit_order fst snd]. ring.
+Qed.
+
+(* ================================================================== *)
 (* 4. whole-basis functions under a translation                         *)
 (* ================================================================== *)
 (* contraction norms and the spherical transform of a shell do not see its centre *)
